@@ -55,7 +55,18 @@ def run_case(c):
     rets = []
     plain = 0
     try:
-        with probing(text, env=env) as p:
+        if c.get("scope") == "local":
+            # no env=: the names are resolved in the scope the probe is written in - here a function whose locals are the
+            # population, in a module whose globals bind the same names to OTHER objects of the same classes (locals win)
+            decoy = population()
+            glb = {"__name__": "harness_recv_scope", "probing": probing, **CLASSES, "meth": RW.meth, "poll": RW.poll, **decoy,
+                   "holder": RW.Holder(decoy.get(c["target"]))}
+            names = sorted(env)
+            exec(f"def _scope({', '.join(names)}):\n    return probing({text!r})\n", glb)
+            probe = glb["_scope"](**env)
+        else:
+            probe = probing(text, env=env)
+        with probe as p:
             p.subscribe(lambda d: events.append(dict(d)))
             for i, name in enumerate(c["calls"]):
                 n0 = len(events)
